@@ -39,6 +39,7 @@ type frame struct {
 	curBlock *ssa.BasicBlock
 	curIdx   int
 	lookupState *State
+	retOrd      int
 }
 
 func (f *frame) pos(p token.Pos) string {
@@ -230,6 +231,20 @@ func (f *frame) lookupVarAt(name string, b *ssa.BasicBlock, idx int) (Val, bool)
 	return f.lookupVar(name, b, nil)
 }
 
+// allocAddr returns the pointer held by the Alloc that backs source variable name.
+func (f *frame) allocAddr(name string) (Val, bool) {
+	for _, blk := range f.fn.Blocks {
+		for _, in := range blk.Instrs {
+			if a, ok := in.(*ssa.Alloc); ok && a.Comment == name {
+				if p, ok := f.vals[a]; ok {
+					return p, true
+				}
+			}
+		}
+	}
+	return Val{}, false
+}
+
 // withState runs a lookup with the state that alloc-backed variables are read from.
 func (f *frame) withState(st *State, fn func() (Val, bool)) (Val, bool) {
 	saved := f.lookupState
@@ -359,7 +374,7 @@ func (f *frame) run(args []Val, st0 *State) []retInfo {
 			case *ssa.Jump:
 				f.flow(b, b.Succs[0], st.reach, st, edges, measures)
 			case *ssa.Return:
-				f.runDefers(st)
+				f.returnAsserts(st, t)
 				var rs []Val
 				for _, r := range t.Results {
 					rs = append(rs, f.val(r))
@@ -375,6 +390,28 @@ func (f *frame) run(args []Val, st0 *State) []retInfo {
 		}
 	}
 	return rets
+}
+
+// returnAsserts checks "at return: assert e" clauses (after deferred calls ran) at every return.
+func (f *frame) returnAsserts(st *State, r *ssa.Return) {
+	if !f.top || f.spec == nil || f.c.pass1 {
+		return
+	}
+	f.retOrd++
+	for _, a := range f.spec.AfterLoop {
+		if a.Ordinal >= 0 || (a.Ordinal != -1 && a.Ordinal != -1-f.retOrd) {
+			continue
+		}
+		env := f.hereEnv(st)
+		for i, rv := range r.Results {
+			env.vars[fmt.Sprintf("result%d", i)] = f.val(rv)
+		}
+		tags := a.Tags
+		if len(tags) == 0 {
+			tags = f.c.tags
+		}
+		f.c.oblige("assert", "at-return", tags, st.reach, env.evalBool(a.Expr), f.pos(r.Pos()), a.Src)
+	}
 }
 
 // afterLoopAsserts checks "after loop N: assert e" at the block that all exits of loop N lead to.
@@ -541,6 +578,7 @@ func (f *frame) loopSpec(h *ssa.BasicBlock) *LoopSpec {
 func (f *frame) loopEnv(h *ssa.BasicBlock, st *State, override map[*ssa.Phi]Val) *Env {
 	c := f.c
 	return &Env{c: c, vars: f.ghostVars(), cur: st, old: c.entry, pkg: pkgOf(f.fn), guard: st.reach,
+		lookupAddr: f.allocAddr,
 		lookup: func(name string) (Val, bool) {
 			return f.withState(st, func() (Val, bool) { return f.lookupVar(name, h, override) })
 		}}
@@ -880,9 +918,14 @@ func (c *FnCtx) useLemma(u UseHint, env *Env) {
 
 // ---- deferred calls ----
 
+// runDefers executes, in reverse order, the defer statements whose block dominates the current block
+// (defers inside loops or conditionals are outside the supported subset).
 func (f *frame) runDefers(st *State) {
 	for i := len(f.defers) - 1; i >= 0; i-- {
-		f.execDeferred(f.defers[i], st)
+		d := f.defers[i]
+		if d.Block() == f.curBlock || d.Block().Dominates(f.curBlock) {
+			f.execDeferred(d, st)
+		}
 	}
 }
 
@@ -1074,7 +1117,6 @@ func (f *frame) exec(instr ssa.Instruction, st *State) {
 		// evaluate the function value and arguments now (Go semantics) - they are already SSA values
 	case *ssa.RunDefers:
 		f.runDefers(st)
-		f.defers = nil
 	default:
 		panic(unsupported(fmt.Sprintf("instruction %T: %s", instr, instr)))
 	}
